@@ -4,6 +4,7 @@
 mod api;
 mod conv;
 mod ops;
+mod selfcheck;
 #[cfg(all(feature = "std", unix))]
 mod stdapi;
 mod val;
